@@ -87,10 +87,12 @@ class Patience(O.Monitor):
             seen = defaultdict(int)
             for idx, r in enumerate(R):
                 new_visit = idx == 0 or moving(R[idx - 1])
-                if new_visit:
+                if new_visit and self._has_patience(r.original_customer_class, r.node):
                     seen[(r.node, r.arrival_date)] += 1
                 # the k-th visit that begins at this node at this instant (zero-time self-loops) owns the k-th sample drawn then
-                ps = [x for x in samples.get((r.id_number, r.node), []) if x[0] == r.arrival_date][seen[(r.node, r.arrival_date)] - 1:]
+                ps = [x for x in samples.get((r.id_number, r.node), []) if x[0] == r.arrival_date][max(seen[(r.node, r.arrival_date)] - 1, 0):]
+                if not self._has_patience(r.original_customer_class, r.node):
+                    ps = []
                 if r.record_type == "renege":
                     ren += 1
                     if not ps:
@@ -122,6 +124,13 @@ class Patience(O.Monitor):
         self.activity["reneges"] = ren
         self.activity["patient_served"] = served
         self.activity["jockeys"] = jock
+
+    def _has_patience(self, cname, nid):
+        """Does a customer arriving at node nid in class cname draw a patience sample?  (only those visits consume one)"""
+        for c in self.spec["classes"]:
+            if c["name"] == cname:
+                return bool(c.get("renege")) and c["renege"][nid - 1] is not None
+        return False
 
     def _jockey_dests(self, cname, nid):
         c = [x for x in self.spec["classes"] if x["name"] == cname]
